@@ -356,11 +356,21 @@ SyncVals(fs, i, vals, explicit) ==      \* [ok, vals, name]
          ELSE SyncVals(fs, i + 1, vals, explicit)
 
 \* exp: the packet was built from keyword arguments (its descriptors were assigned explicitly)
-PFrame(cls, vals, pos) == [kind |-> "pkt", cls |-> cls, idx |-> 1, pos |-> pos, vals |-> vals, bitsI |-> 0, exp |-> FALSE]
+\* exp: which described fields of this packet were ASSIGNED (their descriptors are switched off): all of them, or the named ones
+NoExp == [all |-> FALSE, names |-> {}]
+PFrame(cls, vals, pos) == [kind |-> "pkt", cls |-> cls, idx |-> 1, pos |-> pos, vals |-> vals, bitsI |-> 0, exp |-> NoExp]
 \* a nested packet is explicit iff it was handed over in the root's keywords, or lives inside an explicit packet
-ChildFrame(p, f, v) ==
+\* a nested packet of a PARSED packet has nothing assigned; one handed over in keywords (or living inside such a packet)
+\* was built with every field as a keyword; a declared default of a plain reference is a clone of the prototype
+\* Sub(over): exactly the keywords of `over` were assigned; any other declared default value was built with every field
+ChildFrame(dp, p, f, v) ==
     LET ow == Owner(p.stack)
-        e == p.nexp /\ (IF OwnerIdx(p.stack) = 1 THEN f.name \in p.knames ELSE ow.exp)
+        decl == CurFieldOf(dp, ow)
+        fromKw == IF OwnerIdx(p.stack) = 1 THEN f.name \in p.knames ELSE ow.exp.all
+        e == IF ~p.nexp THEN NoExp
+             ELSE IF fromKw THEN [all |-> TRUE, names |-> {}]
+             ELSE IF decl.k = "Ref" THEN [all |-> FALSE, names |-> {decl.over[j].n : j \in 1..Len(decl.over)}]
+             ELSE [all |-> TRUE, names |-> {}]
     IN [PFrame(v.cls, v.vals, 0) EXCEPT !.exp = e]
 
 PInit0(root, vals, regs) ==
@@ -416,9 +426,9 @@ PackValue(dp, p, f, v) ==
                  IN IF r.ok THEN PDone(dp, r.p) ELSE FailP(r.p)
       [] f.k = "Ref" ->
             IF v.t # "pkt" THEN FailP(p)
-            ELSE [p EXCEPT !.st = "enter", !.stack = Append(@, ChildFrame(p, f, v))]
+            ELSE [p EXCEPT !.st = "enter", !.stack = Append(@, ChildFrame(dp, p, f, v))]
       [] f.k = "RefSel" ->
-            IF v.t = "pkt" THEN [p EXCEPT !.st = "enter", !.stack = Append(@, ChildFrame(p, f, v))]
+            IF v.t = "pkt" THEN [p EXCEPT !.st = "enter", !.stack = Append(@, ChildFrame(dp, p, f, v))]
             ELSE LET key == Eval(f.key, EnvP(p)) IN
                  IF ~key.ok THEN FailP(p)
                  ELSE LET hits == {i \in 1..Len(f.alts) : IntV(f.alts[i].key) = key.v} IN
@@ -476,7 +486,7 @@ StepP(dp, p) ==
             LET allDesc == {dp[fr.cls].fields[i].name : i \in {j \in 1..Len(dp[fr.cls].fields) :
                                 dp[fr.cls].fields[j].k = "Int" /\ dp[fr.cls].fields[j].desc.kind # "none"}}
                 s == SyncVals(dp[fr.cls].fields, 1, fr.vals,
-                              IF Len(p.stack) = 1 THEN p.explicit ELSE IF fr.exp THEN allDesc ELSE {}) IN
+                              IF Len(p.stack) = 1 THEN p.explicit ELSE IF fr.exp.all THEN allDesc ELSE fr.exp.names \cap allDesc) IN
             IF ~s.ok THEN FailP([p EXCEPT !.st = "run", !.hookname = s.name])
             ELSE [p EXCEPT !.st = "run",
                            !.stack = SetTop(@, [fr EXCEPT !.vals = s.vals, !.pos = p.frag.cur,
